@@ -27,9 +27,9 @@ def opDoFor : String := "GtE"               -- currentTime - startTime <op> time
 def secondsDivide : Bool := true
 
 /-- `_addDynamicRequirement` files every statement kind under the temporal requirements -/
-def dynReqAsTemporal : Bool := true
+def dynReqAsTemporal : Bool := false
 /-- `_runMonitors` hands a sub-scenario monitor's `terminate` up as a termination reason -/
-def monTermPropagates : Bool := true
+def monTermPropagates : Bool := false
 
 def sem : Sem := ⟨runOrder, dynReqAsTemporal, monTermPropagates⟩
 end Scenic.Gen
